@@ -191,4 +191,45 @@ impl SwapMarkets {
             }),
 //@body
 }
+
+// ---- the duplicate check at execution: SwapActionParams::validated_{primary,secondary}_swap_path ----------------------------
+/// the two stored paths (slices of the fixed `paths` array: primary_swap_path / secondary_swap_path are projections here)
+pub struct SwapActionParamsC { pub primary: Vec<Pubkey>, pub secondary: Vec<Pubkey> }
+pub open spec fn no_dup(p: Seq<Pubkey>) -> bool { forall|a: int, b: int| 0 <= a < b < p.len() ==> p[a] != p[b] }
+impl SwapActionParamsC {
+    pub fn primary_swap_path(&self) -> (r: &[Pubkey]) ensures r@ == self.primary@ { self.primary.as_slice() }
+    pub fn secondary_swap_path(&self) -> (r: &[Pubkey]) ensures r@ == self.secondary@ { self.secondary.as_slice() }
+
+//@unit C44.SwapActionParams.validated_primary_swap_path
+//@ file crates/utils/src/swap.rs
+//@ within impl SwapActionParams
+//@ fn validated_primary_swap_path
+//@ sig fn validated_primary_swap_path(&self) -> SwapActionParamsResult<&[Pubkey]>
+//@ subopt let mut seen: HashSet<&Pubkey> = HashSet::default\(\); => let mut seen = KeySet::new();
+//@ subopt if !self\s*\.(primary|secondary)_swap_path\(\)\s*\.iter\(\)\s*\.all\(move \|token\| seen\.insert\(token\)\)\s*\{ => let _p23 = self.\1_swap_path(); let mut _all23 = true; let mut _i23: usize = 0; while _i23 < _p23.len() { if !seen.insert(_p23[_i23]) { _all23 = false; break; } _i23 += 1; } if !_all23 {
+//@ subopt SwapActionParamsError::InvalidSwapPath\("\w+"\) => E::Other
+//@ loopopt 1: invariant_except_break _all23, invariant _i23 <= _p23.len(), _p23@ == self.primary@, forall|j: int| 0 <= j < _i23 ==> seen.has(#[trigger] _p23@[j]), forall|k: Pubkey| #[trigger] seen.has(k) ==> exists|j: int| 0 <= j < _i23 && _p23@[j] == k, forall|a: int, b: int| 0 <= a < b < _i23 ==> _p23@[a] != _p23@[b], ensures _all23 ==> _i23 == _p23.len(), !_all23 ==> _i23 < _p23.len() && exists|j: int| 0 <= j < _i23 && _p23@[j] == _p23@[_i23 as int], forall|a: int, b: int| 0 <= a < b < _i23 ==> _p23@[a] != _p23@[b], _p23@ == self.primary@, decreases _p23.len() - _i23,
+    pub fn validated_primary_swap_path(&self) -> (r: Result<&[Pubkey], E>)
+        ensures
+            // RULE R23 (logged): `p.iter().all(move |t| seen.insert(t))` visits p front to back and stops at the first `false`.
+            // the path is handed out exactly when no market token occurs twice in it
+            r.is_ok() == no_dup(self.primary@),
+            r.is_ok() ==> r.unwrap()@ == self.primary@,
+//@body
+
+//@unit C44.SwapActionParams.validated_secondary_swap_path
+//@ file crates/utils/src/swap.rs
+//@ within impl SwapActionParams
+//@ fn validated_secondary_swap_path
+//@ sig fn validated_secondary_swap_path(&self) -> SwapActionParamsResult<&[Pubkey]>
+//@ subopt let mut seen: HashSet<&Pubkey> = HashSet::default\(\); => let mut seen = KeySet::new();
+//@ subopt if !self\s*\.(primary|secondary)_swap_path\(\)\s*\.iter\(\)\s*\.all\(move \|token\| seen\.insert\(token\)\)\s*\{ => let _p23 = self.\1_swap_path(); let mut _all23 = true; let mut _i23: usize = 0; while _i23 < _p23.len() { if !seen.insert(_p23[_i23]) { _all23 = false; break; } _i23 += 1; } if !_all23 {
+//@ subopt SwapActionParamsError::InvalidSwapPath\("\w+"\) => E::Other
+//@ loopopt 1: invariant_except_break _all23, invariant _i23 <= _p23.len(), _p23@ == self.secondary@, forall|j: int| 0 <= j < _i23 ==> seen.has(#[trigger] _p23@[j]), forall|k: Pubkey| #[trigger] seen.has(k) ==> exists|j: int| 0 <= j < _i23 && _p23@[j] == k, forall|a: int, b: int| 0 <= a < b < _i23 ==> _p23@[a] != _p23@[b], ensures _all23 ==> _i23 == _p23.len(), !_all23 ==> _i23 < _p23.len() && exists|j: int| 0 <= j < _i23 && _p23@[j] == _p23@[_i23 as int], forall|a: int, b: int| 0 <= a < b < _i23 ==> _p23@[a] != _p23@[b], _p23@ == self.secondary@, decreases _p23.len() - _i23,
+    pub fn validated_secondary_swap_path(&self) -> (r: Result<&[Pubkey], E>)
+        ensures
+            r.is_ok() == no_dup(self.secondary@),
+            r.is_ok() ==> r.unwrap()@ == self.secondary@,
+//@body
+}
 } // verus!
